@@ -157,10 +157,10 @@ def run(ctx, rep):
                     rep.require(good, "ident", "parse_ident:UnsupportedElfClass", w, "UnsupportedElfClass(data[4]) iff data[4] not in {1,2}",
                                 "UnsupportedElfClass outcome payload %s guards %s" % (pp(e.args[4][0]), sorted((f[0], f[2]) for f in facts if f[0] in ("eq", "ne") and f[1] is cls)))
                     seen.add("class")
-                elif e is T.call("convert::From::from", (), [T.payload(fed, "Err")]):
+                elif e is T.payload(fed, "Err") or e is T.call("convert::From::from", (), [T.payload(fed, "Err")]):
                     seen.add("endian")
                     rep.ok("ident", "parse_ident:endian-error", w, "E::from_ei_data's error is propagated unchanged")
-                elif e is T.call("convert::From::from", (), [T.payload(vid, "Err")]):
+                elif e is T.payload(vid, "Err") or e is T.call("convert::From::from", (), [T.payload(vid, "Err")]):
                     seen.add("verify")
                     rep.ok("ident", "parse_ident:verify-error", w, "verify_ident's error is propagated unchanged")
                 elif e.op == "agg" and e.args[3] == "SliceReadError":
